@@ -109,10 +109,11 @@ def run(pid, tier, seed, jobs, only=None, scale=1.0, soft_cap=None):
   meta = next((sh['meta'] for sh in shards if sh.get('meta')), None)
   if meta is None and not harness_errors:
     harness_errors.append('no shard produced module meta')
-  return merge(pid, tier, seed, meta, shards, harness_errors, time.time() - t0, fuzz_notes)
+  return merge(pid, tier, seed, meta, shards, harness_errors, time.time() - t0, fuzz_notes,
+               partial=bool(only) or scale != 1.0)
 
 
-def merge(pid, tier, seed, meta, shards, harness_errors, wall, fuzz_notes=()):
+def merge(pid, tier, seed, meta, shards, harness_errors, wall, fuzz_notes=(), partial=False):
   known = {e['id']: e for e in findings.load_open(pid)}
   per_check = {}
   failures = {}   # (check, clause) -> failure
@@ -222,7 +223,14 @@ def merge(pid, tier, seed, meta, shards, harness_errors, wall, fuzz_notes=()):
   }
   if harness_errors:
     evidence['coverage']['harness_errors'] = [h[:2000] for h in harness_errors]
-  edir = os.path.join(_env.VERIF_DIR, 'evidence')
+  # Only a full run against the registered tree may rewrite the committed
+  # evidence; partial (--only / --scale) and scratch-copy (VERIF_REPO) runs
+  # write theirs next to the shard output.
+  if partial or os.environ.get('VERIF_REPO'):
+    edir = os.path.join(_env.VERIF_DIR, 'out', pid, tier)
+    evidence['partial_run'] = True
+  else:
+    edir = os.path.join(_env.VERIF_DIR, 'evidence')
   os.makedirs(edir, exist_ok=True)
   with open(os.path.join(edir, f'{pid}.json'), 'w') as f:
     json.dump(evidence, f, indent=1, sort_keys=True)
